@@ -137,7 +137,14 @@ def _expand(state):
         snap = _snap_path(key).read_bytes()
         env.restore(snap)
         pre = _observe()
-        sv, sdata = _SYS.check_state(m, pre, hist)
+        try:
+            sv, sdata = _SYS.check_state(m, pre, hist)
+        except Exception as exc:         # noqa: BLE001
+            in_wn, site = runner.exc_site(exc)
+            if not in_wn:
+                raise
+            sv, sdata = [(f'observe:raises:{type(exc).__name__}@{site}',
+                          f'after {hist}: observing the state through the API raised {exc!r}')], None
         env.close_pool()
         for ev in _SYS.events(m):
             env.restore(snap)
@@ -151,7 +158,15 @@ def _expand(state):
                 raised = (type(exc).__name__, site, str(exc)[:200])
             post = _observe()
             m2 = _SYS.mstep(m, ev)
-            V = _SYS.check(m, ev, m2, pre, post, hist + [ev], raised)
+            try:
+                V = _SYS.check(m, ev, m2, pre, post, hist + [ev], raised)
+            except Exception as exc:     # noqa: BLE001
+                in_wn, site = runner.exc_site(exc)
+                if not in_wn:
+                    raise
+                V = [(f'observe:raises:{type(exc).__name__}@{site}',
+                      f'after {hist + [ev]}: observing the state through the API raised {exc!r}')]
+                env.close_pool()
             k2 = _key(post, m2)
             unchanged = post['exact'] == pre['exact']
             p = _snap_path(k2)
